@@ -14,13 +14,16 @@
 // keep-alive ping) | dup{n} | spur{seq: id} | ptimeout | sleep{ms}; every op may carry ms = delay
 // before the op. sc.P: n, kinds[n], mode = "sync" (wait for the observable effect of every
 // op: the environment projection with internal steps run to quiescence) | "burst" (no waits),
-// holdPong (the first pong is scripted), pingMs [interval, timeout], wdMs (watchdog).
+// holdPong (the first pong is scripted), pingMs [interval, timeout], wdMs (watchdog), procs (GOMAXPROCS during the scenario), queued (the client end of the pipe is
+// wrapped by a queue: the broker's writes never wait for the client, and the ops hold / release make the client's transport
+// deliver everything the broker wrote in between back to back - a burst in the network).
 package reqreply
 
 import (
 	"context"
 	stderrors "errors"
 	"fmt"
+	"runtime"
 	"strings"
 	"sync"
 	"time"
@@ -38,6 +41,69 @@ import (
 
 func init() {
 	h.Kinds["reqreply"] = run
+}
+
+// qtr decouples the broker's writes from the client's reads: a pump goroutine moves every message of the inner transport into an
+// unbounded queue (decoded: what is queued is handed to the connection without further work); Read hands them out in order,
+// but not while the queue is held.
+type qtr struct {
+	wire.EncodingTransport
+	mu   sync.Mutex
+	cond *sync.Cond
+	q    []message.Message
+	err  error
+	held bool
+}
+
+func newQtr(inner wire.EncodingTransport) *qtr {
+	t := &qtr{EncodingTransport: inner}
+	t.cond = sync.NewCond(&t.mu)
+	go func() {
+		for {
+			bs, err := inner.Read()
+			t.mu.Lock()
+			if err != nil {
+				t.err = err
+				t.cond.Broadcast()
+				t.mu.Unlock()
+				return
+			}
+			t.q = append(t.q, bs)
+			t.cond.Broadcast()
+			t.mu.Unlock()
+		}
+	}()
+	return t
+}
+
+func (t *qtr) Read() (message.Message, error) {
+	t.mu.Lock()
+	defer t.mu.Unlock()
+	for {
+		if t.err != nil && (len(t.q) == 0 || t.held) {
+			return nil, t.err
+		}
+		if len(t.q) > 0 && !t.held {
+			bs := t.q[0]
+			t.q = t.q[1:]
+			return bs, nil
+		}
+		t.cond.Wait()
+	}
+}
+
+func (t *qtr) hold(on bool) {
+	t.mu.Lock()
+	t.held = on
+	t.cond.Broadcast()
+	t.mu.Unlock()
+}
+
+// queued reports how many messages wait in the queue.
+func (t *qtr) queued() int {
+	t.mu.Lock()
+	defer t.mu.Unlock()
+	return len(t.q)
 }
 
 var kindsAll = []string{"upOpen", "downOpen", "meta", "upClose", "downClose", "upResume", "downResume"}
@@ -104,6 +170,7 @@ type drv struct {
 	sc   *h.Scenario
 	rec  *h.Rec
 	n    int
+	dupN int // copies sent per dup op
 	kind []string // index = tag (1..n)
 	sync bool
 	wd   time.Duration
@@ -479,9 +546,21 @@ func run(sc *h.Scenario) *h.Rec {
 		d.done[t] = make(chan struct{})
 	}
 
+	if np := intP(sc.P, "procs", 0); np > 0 {
+		// a single scheduler thread makes the order "dispatcher handles the next queued response before the caller it just
+		// woke has run" the regular one (such scenarios are run one at a time)
+		old := runtime.GOMAXPROCS(np)
+		defer runtime.GOMAXPROCS(old)
+	}
 	srvtr, clitr := transport.Pipe()
 	d.srv = encoding.NewTransport(&encoding.TransportConfig{Transport: srvtr, Encoding: protobuf.NewEncoding()})
-	cli := encoding.NewTransport(&encoding.TransportConfig{Transport: clitr, Encoding: protobuf.NewEncoding()})
+	var cli wire.EncodingTransport = encoding.NewTransport(&encoding.TransportConfig{Transport: clitr, Encoding: protobuf.NewEncoding()})
+	var cq *qtr
+	if qd, _ := sc.P["queued"].(bool); qd {
+		cq = newQtr(cli)
+		cli = cq
+	}
+	d.dupN = intP(sc.P, "dupN", 1)
 	var wg sync.WaitGroup
 	wg.Add(1)
 	go d.brokerLoop(&wg)
@@ -542,7 +621,9 @@ func run(sc *h.Scenario) *h.Rec {
 		case "ans":
 			d.send(st.N, "ans")
 		case "dup":
-			d.send(st.N, "dup")
+			for k := 0; k < d.dupN; k++ {
+				d.send(st.N, "dup")
+			}
 		case "spur":
 			// a response with an id the client never issued; its type is the response type of some caller's kind
 			k := d.kind[1+(i%d.n)]
@@ -559,6 +640,17 @@ func run(sc *h.Scenario) *h.Rec {
 					d.waitDone(t, "connection closed")
 				}
 			}
+		case "hold":
+			if cq != nil {
+				cq.hold(true)
+				rec.Log("Hold")
+			}
+		case "release":
+			if cq != nil {
+				n := cq.queued()
+				cq.hold(false)
+				rec.Log("Release", "queued", n)
+			}
 		case "sleep":
 		default:
 			rec.Log("Inconclusive", "why", "unknown op "+st.A)
@@ -569,6 +661,9 @@ func run(sc *h.Scenario) *h.Rec {
 		if d.started[t] && (d.answered[t] || d.cancelled[t]) {
 			d.waitDone(t, "end")
 		}
+	}
+	if cq != nil {
+		cq.hold(false)
 	}
 	rec.Log("Closing")
 	d.mu.Lock()
